@@ -43,6 +43,17 @@ Theorem bc_receive_returns :
 Proof. exact bc_receive_blocked_only_if_nothing_applies. Qed.
 Print Assumptions bc_receive_returns.
 
+(* A value published on a key is delivered to at most one receiver and never to another key: in
+   every reachable state the delivery events have pairwise different publish instances, and each
+   delivery's receiver key equals the key of that publish instance and carries its value. *)
+Theorem bc_delivery_injective :
+  forall progs s,
+    reachable fixed progs s ->
+    NoDup (delivered (log s)) /\
+    (forall p kp kr x r, In (EvDeliver p kp kr x r) (log s) -> kp = kr /\ In (EvPubStart p kp x) (log s)).
+Proof. exact bc_delivery_injective_lemma. Qed.
+Print Assumptions bc_delivery_injective.
+
 (* Free, Close and Cancel complete in one step in every non-crashed state: they can be called
    concurrently and repeatedly, in any order, without blocking. *)
 Theorem bc_admin_never_blocks :
@@ -81,4 +92,11 @@ Example blocked_receiver_reachable :
 Proof.
   eexists. eexists. split; [exists [(0, 0); (0, 0)]; vm_compute; reflexivity|].
   split; reflexivity.
+Qed.
+
+Example delivery_reachable :
+  exists s, reachable fixed [[Receive 1%N 1%N; RunRecv 0]; [Publish 1%N 7%N]] s /\
+            log s = [EvDeliver 0 1%N 1%N 7%N 0; EvPubStart 0 1%N 7%N].
+Proof.
+  eexists. split; [exists [(0, 0); (0, 0); (1, 0); (1, 0)]; vm_compute; reflexivity|reflexivity].
 Qed.
